@@ -191,11 +191,14 @@ static int give_uid_to_object (object_t * ob) {
         }
 
 #ifdef AUTO_TRUST_BACKBONE
-      if (backbone_uid && !strcmp (backbone_uid->name, creator_name))
+      if (backbone_uid && !strcmp (backbone_uid->name, creator_name) && current_object->euid)
         {
           /*
           * The object is loaded from backbone. This is trusted, so we let it
-          * inherit the value of eff_user.
+          * inherit the value of eff_user. A loader without effective uid (only
+          * the master object can get here) has nothing to hand down: the object
+          * is then treated like any other untrusted object below, so that it
+          * always gets a uid.
           */
           ob->uid = current_object->euid;
           ob->euid = current_object->euid;
